@@ -222,7 +222,7 @@ NewInstance ==
          d == IF e.res = "ok" THEN DiffOn(e.o, s.last, cs.c.cmp) ELSE "result" IN
      IF d = "" THEN /\ st' = (e.i :> s) @@ st
                     /\ UNCHANGED <<cs, nbad>>
-     ELSE /\ PrintT(<<"MISMATCH", l, cs.case, "Calib.new", d>>)
+     ELSE /\ PrintT(<<"MISMATCH", l, cs.case, IF cs.probed THEN "New.observation" ELSE "Calib.new", d>>)
           /\ cs' = [cs EXCEPT !.skip = TRUE] /\ nbad' = nbad + 1 /\ UNCHANGED st
   /\ l' = l + 1 /\ UNCHANGED slots
 
